@@ -601,6 +601,11 @@ class Resource(object):
         except AttributeError:
             raise ValueError('The resource requires an EObject-like object, '
                              f'but received {type(root)} instead.')
+        previous = root._eresource
+        if previous is not None and root in previous.contents:
+            if previous is self:
+                return  # already a root of this resource
+            previous.remove(root)
         self.contents.append(root)
         root._eresource = self
         if root._container is not None:
